@@ -474,6 +474,12 @@ theorem isAlive_s (L : LeafS0 I) (pid : Nat) : Pres I (isAlive pid) := by
 @[aesop safe apply (rule_sets := [Sg])]
 theorem objStop_s (L : LeafS0 I) (pid : Nat) : Pres I (objStop pid) := by
   unfold objStop; sg
+/-- a signal from the outside world (`xkill`: always permitted, tagged "x") -/
+theorem squiet_xKill (pid sig : Nat) (s : State) : SQuiet s (xKill pid sig s).2 := by
+  unfold xKill
+  simp only [bind, pure]
+  refine (squiet_runK _ (KGMono.kill pid sig) (KNMono.kill pid sig) (KStep.kill pid sig) (KDMono.kill pid sig) s).trans (squiet_emit _ rfl ?_ _)
+  simp [Obs.isNine]
 @[aesop safe apply (rule_sets := [Sg])]
 theorem sendSignal_s (L : LeafS I) (u p sg : Nat) : Pres I (sendSignal u p sg) := by
   unfold sendSignal; sg
